@@ -34,6 +34,31 @@ CLAIMS = {
                 "the flags gwf passes), the reference readers, the assumption that schedulers honour their dependency syntax.",
         "design": "DESIGN.md section 4, C07",
     },
+    "C10": {
+        "text": "Bounded symbolic model checking of script generation: the script captured by the scheduler simulator is read back by independent readers (directive reader, POSIX shell word "
+                "reader for the cd line) and compared with the precedence fold backend default < workflow default < template < keyword; the spec text is a symbolic string (verbatim tail, "
+                "cd and set -e before it); directory names range over a metacharacter alphabet; log directives are checked against what `gwf logs` opens; clean_logs over log/target name sets.",
+        "note": "Bound: one option varied over absent/None/value at three levels (+ a second option, + an unknown option), spec <= 4 (6) symbolic characters, directory names <= 2 (3) "
+                "characters over 18 characters, 5 (6) log names incl. dotted prefixes. What bash does with the spec and how schedulers parse directive values is outside the claim.",
+        "design": "DESIGN.md section 4, C10",
+    },
+    "C19": {
+        "text": "E2 kernel: the name regular expression is read from the AST and its Python-semantics language is proved equal to the identifier-like language in the regex theory "
+                "(unbounded; z3 5.1, z3 4.8.12 and cvc5 agree). CrossHair queries: path validation over symbolic strings, value kinds, every creation mode x template working_dir x pair "
+                "of invoking directories (os.getcwd interposed) gives identical absolute paths and cd target, cli.main/find_workflow from a symbolic nesting depth reach the same project "
+                "and state directory, map names distinct/valid/deterministic.",
+        "note": "Bound: path strings <= 1 symbolic character over U+0000..U+00FF (quick), catalogues of value kinds, 4 invoking directories, 7 template working_dir forms, <= 4 map items. "
+                "Lexical normalisation only (no symlinks); click parsing and entry-point discovery outside.",
+        "design": "DESIGN.md section 4, C19",
+    },
+    "C20": {
+        "text": "E2 kernel: get_namespace's prefix test and slice arithmetic are read from the AST and proved equal to 'key = ns + \".\" + rest -> rest' in the string theory (unbounded). "
+                "CrossHair queries over the real config command bodies and cli.main: coercion and round trip through the file in a later invocation, one inductive step of set/unset/get "
+                "on an arbitrary user map (only that key changes, defaults never written), flag > config > default for backend/verbosity/colour, and the selected backend's settings "
+                "(and no foreign key) reaching the real backend factories (sacct consulted iff accounting enabled, pool client host/port).",
+        "note": "Bound: value and key catalogues (23 values, 6 keys), 3-key arbitrary pre-state, all flag/config/default combinations. Trusted: VFS, simulator, recorded configure_logging.",
+        "design": "DESIGN.md section 4, C20",
+    },
 }
 
 PENDING = {}
